@@ -56,6 +56,13 @@ CHECKS = {
          "every primitive/float/assign form panics on a zero divisor. Correspondence: every overload incl. all primitive widths and floats, judged by the relational spec and the model.",
          NOTE_COMMON + " get_rounding_term on a single digit and count_decimal_digits are replaced by their proven specifications (C18). A numerator equal to one routes to inverse() (C12).",
          "Lean 4 proof (loop invariants + rational error bound) + differential correspondence check", "DESIGN.md §5 C08"),
+ "C05": ("Lean model of from_str_radix with the i128 and num-bigint parsers it delegates to (total function on bytes = the no-panic clause) and an independent grammar-shaped "
+         "specification; kernel-checked: radix != 10 rejected, accepted scales lie in the i64 range, concrete accept/reject witnesses for model and grammar. The equality model = grammar "
+         "for ALL strings is established exhaustively for every string up to length 6 (quick) / 7 (thorough) over the 11-character alphabet of the quantifier and on structured long inputs "
+         "(not yet as a Lean theorem: C05_parse_eq_spec is listed as open in DESIGN.md); the real parser is compared with both on the same inputs.",
+         "Trusted: Lean kernel, the byte-level model's tie to the code (differential, exhaustive small scope), str::from_utf8, i128::from_str and num-bigint's parser as modelled (their source was read; "
+         "they are exercised by the same runs). PARTIAL: model=grammar for all lengths is not yet a theorem.",
+         "Lean 4 model + grammar spec, exhaustive small-scope equivalence and differential correspondence; partial proof", "DESIGN.md §5 C05"),
 }
 
 NOT_YET = "check under construction in this round (not yet claimed); see DESIGN.md §11 order of work"
